@@ -1245,6 +1245,44 @@ func (l *Life) BoundsScenario(tag string) {
 	}
 }
 
+// VecThresholdScenario: merges that leave 999, 1000 and 1001 vectors in a field (the merger switches from an
+// exact to a clustered index at 1000 and sizes the clustering from the same count).
+func (l *Life) VecThresholdScenario(tag string) {
+	l.Reset(1024, tag)
+	l.light = true
+	mk := func(n, base int) []Doc {
+		docs := make([]Doc, n)
+		for i := range docs {
+			id := B(fmt.Sprintf("t%05d", base+i))
+			docs[i] = Doc{ID: id, Fields: []FieldInst{IDField(id), {Name: B("v2"), Kind: KindVec, Vec: Ints{l.r.Intn(61) - 30, l.r.Intn(61) - 30}, Dims: 2}}}
+			docs[i].Canon()
+		}
+		return docs
+	}
+	a := l.Build(mk(505, 0), 1026)
+	b := l.Build(mk(505, 1000), 1026)
+	if a == nil || b == nil {
+		return
+	}
+	first := func(k int) Drop {
+		ds := Ints{}
+		for d := 0; d < k; d++ {
+			ds = append(ds, d)
+		}
+		return Drop{Ds: ds}
+	}
+	for _, cut := range [][2]int{{5, 5}, {5, 6}, {5, 4}} { // 1000, 999, 1001 survivors
+		if k, ok := l.Merge([]*hseg{a, b}, []Drop{first(cut[0]), first(cut[1])}, 1026); ok {
+			if h := l.Open(k); h != nil {
+				l.Close(h)
+			}
+		}
+	}
+	for _, h := range l.live() {
+		l.Close(h)
+	}
+}
+
 // WideScenario: a segment with more than 128 fields goes through every writer and reader once: built,
 // persisted, re-opened, merged with deletions (alone and with a second wide segment), merged again.
 func (l *Life) WideScenario(p *GenProfile, tag string) {
